@@ -78,11 +78,17 @@ impl CounterFn for AtomicCounter {
             #[cfg(metrics_verif)]
             metrics::__verif::yield_point(1005);
             self.last.store(value, Release);
+            #[cfg(metrics_verif)]
+            metrics::__verif::yield_point(1006);
+            self.current.store(value, Release);
+        } else {
+            // Already in absolute mode: a stale (smaller) value must not move the counter backwards, which would make
+            // the next delta wrap around.
+            #[cfg(metrics_verif)]
+            metrics::__verif::yield_point(1006);
+            self.current.fetch_max(value, AcqRel);
         }
 
-        #[cfg(metrics_verif)]
-        metrics::__verif::yield_point(1006);
-        self.current.store(value, Release);
         #[cfg(metrics_verif)]
         metrics::__verif::yield_point(1007);
         self.updates.fetch_add(1, Relaxed);
